@@ -802,6 +802,35 @@ func (in *interp) store(l ast.Expr, v AV, st *state) {
 		}
 		// deeper selectors (args.padZero via pointer) - o.f.g not tracked
 	case *ast.IndexExpr:
+		// exact mode: a byte stored into a concrete byte string at a concrete index
+		if in.exact {
+			if iv, ok := in.eval1(x.Index, st).(avInt); ok {
+				if cv, ok := v.(avInt); ok && cv.v >= 0 && cv.v <= 255 {
+					set := func(old AV) (AV, bool) {
+						s, ok := old.(avStr)
+						if !ok || iv.v < 0 || int(iv.v) >= len(s.s) {
+							return nil, false
+						}
+						b := []byte(s.s)
+						b[iv.v] = byte(cv.v)
+						return avStr{string(b)}, true
+					}
+					if o := in.p.objOf(x.X); o != nil {
+						if nv, ok := set(st.vars[o]); ok {
+							st.vars[o] = nv
+							return
+						}
+					} else if sel, ok := ast.Unparen(x.X).(*ast.SelectorExpr); ok {
+						if k, ok := in.fieldKey(sel.X, sel.Sel.Name, st); ok {
+							if nv, ok := set(st.flds[k]); ok {
+								st.flds[k] = nv
+								return
+							}
+						}
+					}
+				}
+			}
+		}
 		// element store: the aggregate becomes unknown
 		if o := in.p.objOf(x.X); o != nil {
 			st.vars[o] = top
